@@ -2,7 +2,7 @@
 META = {
     "level": "exploration",
     "technique": "history + executable model: seeded operation histories on the real StorageServer/BucketWriter/BucketReader compared with a bucket model after every operation",
-    "text": "Drives the real allmydata.storage.server.StorageServer (direct API and FoolscapStorageServer wrappers with a broker-like canary) on a temp dir under the virtual clock with seeded histories of allocate/write/close/abort/timeout/disconnect/read/list over 1..3 storage indexes x 4 share numbers. A third leg goes through the real HTTPServer (vf.http.HttpStorage over the same server): up to two uploads per history of 64 KiB+1..200 000-byte shares whose PATCH bodies exceed 64 KiB (applied by the server in 64 KiB pieces), with earlier data inside or beyond the first 64 KiB of the body, identical or conflicting, then completed or aborted. Writes are fresh, out-of-order, duplicate-identical, overlapping-identical, conflicting, beyond the allocated size. After every operation the return value/exception and the observable state (get_buckets, get_shares, directory listings of shares/ and incoming/, allocated_size(), raw incoming file parsed independently) are compared with a zero-initialised-array + written-mask + visible-flag model.",
+    "text": "Drives the real allmydata.storage.server.StorageServer (direct API and FoolscapStorageServer wrappers with a broker-like canary) on a temp dir under the virtual clock with seeded histories of allocate/write/close/abort/timeout/disconnect/read/list over 1..3 storage indexes x 4 share numbers. A third leg goes through the real HTTPServer (vf.http.HttpStorage over the same server): at most one upload per history of 64 KiB+1..200 000-byte shares whose PATCH bodies exceed 64 KiB (applied by the server in 64 KiB pieces), with earlier data inside or beyond the first 64 KiB of the body, identical or conflicting, then completed or aborted. Writes are fresh, out-of-order, duplicate-identical, overlapping-identical, conflicting, beyond the allocated size. After every operation the return value/exception and the observable state (get_buckets, get_shares, directory listings of shares/ and incoming/, allocated_size(), raw incoming file parsed independently) are compared with a zero-initialised-array + written-mask + visible-flag model.",
     "note": "Trusts the 60-line bucket model, the RangeMap shim (no zero-length writes / zero-size allocations are issued), the independent share-file parser in _storage.py, and assumes the upload timeout is 30 min of inactivity (judged only outside a +-1 s band).",
 }
 LEVEL = "exploration"
@@ -40,7 +40,7 @@ def run(ck):
     ck.rule = ("one case = one fresh server + a seeded history of 40..120 ops over 1..3 storage indexes "
                "(sometimes sharing a prefix dir) x share numbers 0..3; distinct = distinct op history; "
                "non-trivial = history has an overlapping write, a close and an abort/timeout/disconnect")
-    ncases = 150 if ck.tier == "quick" else 8000
+    ncases = 120 if ck.tier == "quick" else 6000
     ck.assumptions.append("upload inactivity timeout is 30 min (BucketWriter); judged only when >1 s away from it")
 
     for ci in range(ncases):
@@ -433,7 +433,7 @@ def _one_case(ck, rng, case, FoolscapStorageServer, BucketWriter, FoolscapBucket
     http = [None, 0]
 
     def do_http_big():
-        if http[1] >= 2:
+        if http[1] >= 1:
             return do_write()
         http[1] += 1
         from vf.http import HttpStorage
@@ -557,7 +557,7 @@ def _one_case(ck, rng, case, FoolscapStorageServer, BucketWriter, FoolscapBucket
                  % (ss.allocated_size(), open_before))
 
     ops = [(do_allocate, 14), (do_write, 42), (do_close, 9), (do_abort, 6), (do_advance, 5),
-           (do_disconnect, 3), (do_read, 21), (do_http_big, 4)]
+           (do_disconnect, 3), (do_read, 21), (do_http_big, 3)]
     table = [f for f, w in ops for _ in range(w)]
     do_allocate()
     invariants("allocate")
